@@ -70,6 +70,34 @@ def setSegmentSize (len maxApdu uh sh : Nat) : Option (Nat × Nat) :=
     let size := maxApdu - sh
     some (size, len / size + (if len % size = 0 then 0 else 1))
 
+/-- the header `get_segment` builds from the context `c` before the
+    segmentation flags: a ConfirmedRequest carrying the local capabilities, or
+    a ComplexAck echoing the context's invoke ID -/
+def segHeader (cfg : Cfg) (k : Key) (b : Body) (c : Apdu) : Except Raise Apdu :=
+  if c.ty = 0 then
+    match encodeMaxSegs b.maxSegs with
+    | .error r => .error r
+    | .ok ms =>
+      match encodeMaxApdu b.maxApdu with
+      | .error r => .error r
+      | .ok mr =>
+        .ok { ty := 0, service := c.service, maxSegs := ms, maxResp := mr,
+              invokeId := k.id, sa := cfg.seg.canRx }
+  else if c.ty = 3 then
+    .ok { ty := 3, service := c.service, invokeId := c.invokeId }
+  else .error .badContextType
+
+/-- `if (self.segmentCount != 1): apduSeg, apduMor, apduSeq, apduWin` -/
+def segFlags (cfg : Cfg) (b : Body) (indx win : Nat) (hdr : Apdu) : Apdu :=
+  if b.segCount ≠ 1 then
+    { hdr with seg := true, mor := decide (indx < b.segCount - 1), seq := indx % 256,
+               win := if indx = 0 then cfg.window else win }
+  else hdr
+
+/-- the slice `pduData[offset:offset+segmentSize]` -/
+def segSlice (b : Body) (c : Apdu) (indx : Nat) : Bytes :=
+  (c.data.drop (indx * b.segSize)).take b.segSize
+
 /-- `get_segment(indx)`; `win` is `actualWindowSize` for the segments after the
     first (callers hold it unwrapped: `fill_window` iterates `range(actualWindowSize)`) -/
 def getSegment (cfg : Cfg) (k : Key) (b : Body) (indx win : Nat) : Except Raise Apdu :=
@@ -77,22 +105,10 @@ def getSegment (cfg : Cfg) (k : Key) (b : Body) (indx win : Nat) : Except Raise 
   | none => .error .noContext
   | some c =>
     if indx ≥ b.segCount then .error .badSegment
-    else do
-      let hdr : Apdu ←
-        if c.ty = 0 then do
-          let ms ← encodeMaxSegs b.maxSegs
-          let mr ← encodeMaxApdu b.maxApdu
-          pure { ty := 0, service := c.service, maxSegs := ms, maxResp := mr,
-                 invokeId := k.id, sa := cfg.seg.canRx }
-        else if c.ty = 3 then
-          pure { ty := 3, service := c.service, invokeId := c.invokeId }
-        else .error .badContextType
-      let hdr : Apdu :=
-        if b.segCount ≠ 1 then
-          { hdr with seg := true, mor := decide (indx < b.segCount - 1), seq := indx % 256,
-                     win := if indx = 0 then cfg.window else win }
-        else hdr
-      pure { hdr with data := (c.data.drop (indx * b.segSize)).take b.segSize }
+    else
+      match segHeader cfg k b c with
+      | .error r => .error r
+      | .ok hdr => .ok { segFlags cfg b indx win hdr with data := segSlice b c indx }
 
 /-- result of `fill_window`: segments sent, whether `sentAllSegments` was set,
     and the exception (if any) that ended the loop -/
@@ -149,6 +165,21 @@ def clientMaxApdu (di : Option DeviceInfo) (b : Body) : Nat :=
       | none => m
       | some n => min n m
 
+/-- `self.device_info.segmentationSupported not in ('segmentedReceive', 'segmentedBoth')`
+    (false without a record) -/
+def diCannotRx : Option DeviceInfo → Bool
+  | some d => !d.seg.canRx
+  | none => false
+
+/-- the record states a (non-zero) maximum number of segments and `count` exceeds it -/
+def diTooMany (di : Option DeviceInfo) (count : Nat) : Bool :=
+  match di with
+  | some d =>
+    match d.maxSegs with
+    | some n => n ≠ 0 && count > n
+    | none => false
+  | none => false
+
 /-- local abort toward the application: `abort = self.abort(reason); self.response(abort)` -/
 def clientAbortApp (k : Key) (reason : Nat) : Res :=
   (none, [.confirm k.peer (mkAbort false k.id reason)])
@@ -167,14 +198,8 @@ def clientIndication (cfg : Cfg) (now : Nat) (di : Option DeviceInfo) (k : Key) 
   | some (size, count) =>
     let b := { b with segSize := size, segCount := count }
     if count > 1 && !cfg.seg.canTx then clientAbortApp k abortSegmentationNotSupported
-    else if count > 1 && (match di with | some d => !d.seg.canRx | none => false) then
-      clientAbortApp k abortSegmentationNotSupported
-    else if count > 1 && (match di with
-                          | some d => (match d.maxSegs with
-                                       | some n => n ≠ 0 && count > n
-                                       | none => false)
-                          | none => false) then
-      clientAbortApp k abortApduTooLong
+    else if count > 1 && diCannotRx di then clientAbortApp k abortSegmentationNotSupported
+    else if count > 1 && diTooMany di count then clientAbortApp k abortApduTooLong
     else
       let b :=
         if count = 1 then
@@ -317,6 +342,16 @@ def promote (sa : Bool) (di : Option DeviceInfo) : Option DeviceInfo :=
       | _ => some d
     else some d
 
+/-- the client's maximum APDU the server works with: the value decoded from
+    the request header, replaced by the cached (I-Am) value when that is not smaller -/
+def announcedMax (di : Option DeviceInfo) (m : Nat) : Nat :=
+  match di with
+  | some d =>
+    match d.maxApdu with
+    | some dm => if dm < m then m else dm
+    | none => m
+  | none => m
+
 /-- `ServerSSM.idle(apdu)` for a fresh transaction `b` (key already = (source,
     invoke ID)); `di` is the record AFTER `promote`. -/
 def serverIdle (cfg : Cfg) (now : Nat) (di : Option DeviceInfo) (k : Key) (b : Body)
@@ -325,12 +360,7 @@ def serverIdle (cfg : Cfg) (now : Nat) (di : Option DeviceInfo) (k : Key) (b : B
   match decodeMaxApdu a.maxResp with
   | none => serverAbortNet k abortOther                        -- fix Tsm-4
   | some m =>
-    let m := match di with
-      | some d => (match d.maxApdu with
-                   | some dm => if dm < m then m else dm
-                   | none => m)
-      | none => m
-    let b := { b with maxApdu := m, maxSegs := decodeMaxSegs a.maxSegs }
+    let b := { b with maxApdu := announcedMax di m, maxSegs := decodeMaxSegs a.maxSegs }
     if !a.seg then
       (some { b with st := .awaitResp, timer := stateTimer now cfg.appTimeout },
        [.indicate k.peer a])
@@ -399,6 +429,18 @@ def serverIndication (cfg : Cfg) (now : Nat) (k : Key) (b : Body) (a : Apdu) : R
   | .segResp => serverSegmentedResponse cfg now k b a
   | _ => (some b, [])            -- "invalid state": logged only
 
+/-- `(self.maxSegmentsAccepted is not None) and (self.segmentCount > self.maxSegmentsAccepted)` -/
+def exceeds : Option Nat → Nat → Bool
+  | some n, count => count > n
+  | none, _ => false
+
+/-- the largest APDU the server may send: the client's maximum, capped by the
+    cached `maxNpduLength` when known -/
+def serverMaxApdu (npdu : Option Nat) (b : Body) : Nat :=
+  match npdu with
+  | none => b.maxApdu
+  | some n => min n b.maxApdu
+
 /-- `ServerSSM.confirmation(apdu)`: the application's answer.  `npdu` is the
     cached `maxNpduLength` of the client (if the transaction holds a record). -/
 def serverConfirmation (cfg : Cfg) (now : Nat) (npdu : Option Nat) (k : Key) (b : Body)
@@ -407,17 +449,13 @@ def serverConfirmation (cfg : Cfg) (now : Nat) (npdu : Option Nat) (k : Key) (b 
   else if a.ty = 2 || a.ty = 5 || a.ty = 6 then (none, [.send k.peer a])
   else if a.ty = 3 then
     let b := { b with ctx := some a }
-    let maxApdu := match npdu with
-      | none => b.maxApdu
-      | some n => min n b.maxApdu
-    match setSegmentSize a.data.length maxApdu 3 5 with
+    match setSegmentSize a.data.length (serverMaxApdu npdu b) 3 5 with
     | none => serverAbortNet k abortApduTooLong
     | some (size, count) =>
       let b := { b with segSize := size, segCount := count }
       if count > 1 && !cfg.seg.canTx then serverAbortNet k abortSegmentationNotSupported
       else if count > 1 && !b.sra then serverAbortNet k abortSegmentationNotSupported
-      else if count > 1 && (match b.maxSegs with | some n => count > n | none => false) then
-        serverAbortNet k abortApduTooLong
+      else if count > 1 && exceeds b.maxSegs count then serverAbortNet k abortApduTooLong
       else
         let b := { b with segRetry := 0, initSeq := 0, window := none }
         if count = 1 then (none, [.send k.peer a])
